@@ -1,5 +1,7 @@
 package run
 
+import "strings"
+
 // GenerateFor is Generate for a given kind of worker: the auto-yield worker
 // (a yield before every statement, ~20x the events) runs at most ten tasks of
 // a generated workload.
@@ -9,6 +11,18 @@ func GenerateFor(prop string, seed uint64, tier string, auto bool) *Spec {
 		s.Auto = true
 		if len(s.Tasks) > 10 {
 			s.Tasks = s.Tasks[:10]
+		}
+		// `**.q` evaluates a step over the descendants in Go map order; at
+		// statement granularity the items (maps, strings, numbers) take
+		// different paths, so the event log would differ from process to
+		// process. The node-granular worker keeps the program.
+		for i := range s.Exprs {
+			s.Exprs[i].Text = strings.ReplaceAll(s.Exprs[i].Text, "**.q", "items.q")
+		}
+		for _, ops := range s.Tasks {
+			for i := range ops {
+				ops[i].Text = strings.ReplaceAll(ops[i].Text, "**.q", "items.q")
+			}
 		}
 	}
 	return s
